@@ -35,6 +35,7 @@ def _absent_branches(loop, member):
 
 
 def check(prog, run):
+    check_non_finite_guard(prog, run, "I5")
     cv = prog.get_func(CV, "coerce_value")
     cio = prog.get_func(CV, "_coerce_input_object")
     clv = prog.get_func(CV, "_coerce_list_value")
@@ -537,3 +538,44 @@ def check_default_only_when_absent(prog, run, rule_id):
                     run.report(r, "%s:%s:default-for-provided-value" % (modname, fname), f.where(n),
                                "`%s` uses the declared default although the name is present in the provided values (when %s): a value "
                                "explicitly given as null is replaced by the default instead of being delivered / rejected as null" % (key, cond))
+
+
+def check_non_finite_guard(prog, run, rule_id):
+    """Float coercion refuses NaN and both infinities."""
+    from .. import fold
+    import math
+    r = run.rule(rule_id, "coerce_float: the guard that follows the conversion - the test of the `if` that raises and mentions the converted "
+                          "value - is a pure expression over that value; folded on nan, +inf, -inf it is true (the value is refused) and on "
+                          "0.0, 1.5, -2.5, 1e308 it is false: NaN and the infinities are neither GraphQL nor JSON numbers, and a guard "
+                          "that lets one through hands resolvers a value the response cannot carry", 7)
+    cf = prog.get_func(SC, "coerce_float")
+    run.looked_at(cf)
+    conv = [n for n in own_nodes(cf.node) if isinstance(n, ast.Assign) and len(n.targets) == 1 and isinstance(n.targets[0], ast.Name)
+            and isinstance(n.value, ast.Call) and isinstance(n.value.func, ast.Name) and n.value.func.id == "float"]
+    if len(conv) != 1:
+        raise AnalysisError("C07.%s: the float() conversion of coerce_float was not found" % rule_id)
+    v = conv[0].targets[0].id
+    guards = [n for n in own_nodes(cf.node) if isinstance(n, ast.If) and n.body and isinstance(n.body[-1], ast.Raise)
+              and any(isinstance(x, ast.Name) and x.id == v for x in ast.walk(n.test)) and n.lineno > conv[0].lineno]
+    if not guards:
+        run.report(r, "%s:coerce_float:no-non-finite-guard" % SC, cf.where(), "coerce_float has no guard on the converted value: NaN and the infinities are accepted")
+        return
+    allowed = {"float": float, "abs": abs, "isinstance": isinstance, "math": math, "str": str, "repr": repr, "True": True, "False": False, "None": None,
+               "bool": bool, "int": int}
+    for sample in (float("nan"), float("inf"), float("-inf"), 0.0, 1.5, -2.5, 1e308):
+        refused = False
+        for g in guards:
+            try:
+                got = fold.fold_expr(g.test, {v: sample}, allowed)
+            except fold.FoldError as e:
+                raise AnalysisError("C07.%s: the guard `%s` cannot be folded: %s" % (rule_id, " ".join(ast.unparse(g.test).split()), e))
+            if isinstance(got, Exception):
+                raise AnalysisError("C07.%s: the guard raises %r on %r" % (rule_id, got, sample))
+            refused = refused or bool(got)
+        want = not math.isfinite(sample)
+        r.instance("converted value %r -> %s" % (sample, "refused" if refused else "accepted"))
+        if refused != want:
+            run.report(r, "%s:coerce_float:non-finite-guard(%r)" % (SC, sample), cf.where(guards[0]),
+                       "coerce_float %s the value %r (guard `%s`): %s" % ("refuses" if refused else "accepts", sample,
+                                                                     " ".join(ast.unparse(guards[0].test).split()),
+                                                                     "a finite number is rejected" if refused else "a non-finite number reaches resolvers and cannot be serialised as strict JSON"))
